@@ -43,6 +43,10 @@ pub struct CloseCase {
     /// listener left" is asserted)
     #[serde(default)]
     pub sabotage: u8,
+    /// 1 = `monitor()` is called before the first bind / connect and the receiver is kept until
+    /// the end; 2 = called and the receiver dropped at once; 0 = no monitor
+    #[serde(default)]
+    pub monitor: u8,
 }
 
 pub fn close_outcome(c: &CloseCase) -> Outcome {
@@ -50,6 +54,9 @@ pub fn close_outcome(c: &CloseCase) -> Outcome {
     o.nontrivial = !matches!(c.prefix, Prefix::BoundOnly);
     o.class(format!("{:?}", c.prefix).split('(').next().unwrap().to_string());
     o.class(if c.close { "close" } else { "drop" });
+    if c.monitor > 0 {
+        o.class("with-a-monitor-installed");
+    }
     if c.close && c.sabotage > 0 && c.transport == Transport::Ipc {
         o.class("close-meets-a-failure");
     }
@@ -67,6 +74,14 @@ pub fn close_outcome(c: &CloseCase) -> Outcome {
             }
             let base_tasks = realnet::alive_tasks();
             let mut s = AnySocket::new(kind, None);
+            let _monitor_rx = match c.monitor {
+                1 => Some(realnet::sock_monitor(&mut s)),
+                2 => {
+                    drop(realnet::sock_monitor(&mut s));
+                    None
+                }
+                _ => None,
+            };
             let mut endpoints: Vec<String> = vec![];
             for _ in 0..c.binds.max(1) {
                 match realnet::sock_bind(&mut s, &c.transport.bind_text()).await {
@@ -338,16 +353,25 @@ pub fn grid() -> Vec<CloseCase> {
                     continue;
                 }
                 for close in [true, false] {
-                    v.push(CloseCase { kind, transport, prefix, close, binds: 1, sabotage: 0 });
+                    v.push(CloseCase { kind, transport, prefix, close, binds: 1, sabotage: 0, monitor: 0 });
+                }
+            }
+        }
+        // with a monitor installed (some back ends do extra work per peer only then)
+        for transport in [Transport::TcpV4, Transport::Ipc] {
+            for prefix in [Prefix::Accepted(2), Prefix::ConnectedOut, Prefix::MidTraffic] {
+                for close in [true, false] {
+                    v.push(CloseCase { kind, transport, prefix, close, binds: 1, sabotage: 0, monitor: if close { 1 } else { 2 } });
+                    v.push(CloseCase { kind, transport, prefix, close, binds: 1, sabotage: 0, monitor: if close { 2 } else { 1 } });
                 }
             }
         }
         // close meets a failure: the ipc socket file cannot be removed / is already gone
         for prefix in [Prefix::BoundOnly, Prefix::Accepted(2)] {
             for sabotage in [1u8, 2] {
-                v.push(CloseCase { kind, transport: Transport::Ipc, prefix, close: true, binds: 1, sabotage });
-                v.push(CloseCase { kind, transport: Transport::Ipc, prefix, close: true, binds: 2, sabotage });
-                v.push(CloseCase { kind, transport: Transport::Ipc, prefix, close: true, binds: 3, sabotage });
+                v.push(CloseCase { kind, transport: Transport::Ipc, prefix, close: true, binds: 1, sabotage, monitor: 0 });
+                v.push(CloseCase { kind, transport: Transport::Ipc, prefix, close: true, binds: 2, sabotage, monitor: 0 });
+                v.push(CloseCase { kind, transport: Transport::Ipc, prefix, close: true, binds: 3, sabotage, monitor: 0 });
             }
         }
     }
@@ -385,6 +409,7 @@ pub fn run(ctx: &Ctx) -> (Report, PropertyMeta) {
             close: s.bool(),
             binds: s.range(1, 3) as u8,
             sabotage: if s.chance(1, 8) { s.range(1, 2) as u8 } else { 0 },
+            monitor: s.weighted(&[2, 1, 1]) as u8,
         },
         close_outcome,
     );
